@@ -69,6 +69,23 @@ def opts_src(prefix, o, out, ind):
             out.append("%s%s.%s = %d" % (ind, prefix, k, o[k]))
 
 
+IFF_EXPR = {   # compound conditions that all mean "en is 1": evaluated by the library's expression evaluator at sample time
+    "not": "~(self.%(f)s == 0)",
+    "or": "((self.%(f)s == 1) | (self.%(f)s > 1))",
+    "and": "((self.%(f)s != 0) & (self.%(f)s <= 1))",
+    "inside": "self.%(f)s.inside(vsc.rangelist(1, [3, 4]))",
+    "not_inside": "self.%(f)s.not_inside(vsc.rangelist(0))",
+}
+
+
+def iff_src(iff):
+    if "field" in iff:
+        return "iff=self.%s" % iff["field"]
+    if "expr" in iff:
+        return "iff=" + IFF_EXPR[iff["expr"]] % {"f": iff["of"]}
+    return "iff=lambda: self.%s" % iff["callable"]
+
+
 def cg_source(cg):
     out = []
     out.append("@vsc.covergroup")
@@ -91,10 +108,7 @@ def cg_source(cg):
             args = ["self.%s" % cp["target"]]
         iff = cp.get("iff")
         if iff:
-            if "field" in iff:
-                args.append("iff=self.%s" % iff["field"])
-            else:
-                args.append("iff=lambda: self.%s" % iff["callable"])
+            args.append(iff_src(iff))
         if cp.get("bins") is not None:
             args.append("bins=%s" % (cp["bins_expr"] if cp.get("bins_expr") else dict_src(cp["bins"])))
         if cp.get("ignore"):
@@ -109,10 +123,7 @@ def cg_source(cg):
         args = ["[%s]" % ", ".join("self.%s" % c for c in x["cps"])]
         iff = x.get("iff")
         if iff:
-            if "field" in iff:
-                args.append("iff=self.%s" % iff["field"])
-            else:
-                args.append("iff=lambda: self.%s" % iff["callable"])
+            args.append(iff_src(iff))
         o = x.get("options")
         if o:
             args.append("options=dict(%s)" % ", ".join("%s=%d" % kv for kv in sorted(o.items())))
